@@ -56,6 +56,9 @@ crate::harnesses! { REG;
     /// quick required unwindset=sw_double_and_add:7 | SW cofactor 4 (order 20, r = 5) — default implementations: for ALL points of E(F_13) (mostly outside the subgroup, 2- and 4-torsion included): membership test <=> r*P = O; clear_cofactor / mul_by_cofactor = 4*P and lands in the subgroup; cofactor * cofactor_inv = id on the subgroup
     #[unwind(66)]
     fn c12_sw_cof4() { sw_subgroup::<SwCof4>() }
+    /// quick required unwindset=sw_double_and_add:7 | SW b = 0 (order 20, full 2-torsion, r = 5) — default implementations: ALL points
+    #[unwind(66)]
+    fn c12_sw_b0() { sw_subgroup::<SwB0>() }
     /// quick required unwindset=sw_double_and_add:7 | SW cofactor 1 (order 19): membership is true for ALL points (short-circuit), clearing is the identity map
     #[unwind(66)]
     fn c12_sw_cof1() { sw_subgroup::<SwA0>() }
